@@ -26,11 +26,13 @@ type witness struct {
 	Edit    string   `json:"edit"`    // the edit whose build is crashed ("init" = first build)
 	Plan    string   `json:"plan"`    // crash@k or tear@k
 	Op      string   `json:"op"`      // the operation the process died in front of
+	Cfg     string   `json:"config,omitempty"`
 }
 
 type scenario struct {
 	fam   hist.Family
 	edits []string // names of edits (applied one after the other with full builds) before the crashed build; last one is crashed
+	cfg   string   // configuration text besides the family's own ("" = no cache directory)
 }
 
 var absRepo = regexp.MustCompile(`/[^ ]*/repo/`)
@@ -70,10 +72,18 @@ func main() {
 	os.RemoveAll(root)
 	defer os.RemoveAll(root)
 	noCache := "[cache]\ndir =\n"
+	cfgOf := func(sc scenario) string {
+		if sc.cfg != "" {
+			return sc.cfg
+		}
+		return noCache
+	}
+	// an uncompressed directory cache next to the repository (entries are hard links: a restore links the outputs one by one)
+	dirCache := "[cache]\ndir = ../cache\ndirclean = false\n"
 
 	var scs []scenario
 	chain, dirs := hist.Chain{Threads: "1"}, hist.Dirs{Threads: "1"}
-	scs = append(scs, scenario{chain, []string{"init"}}, scenario{dirs, []string{"init"}})
+	scs = append(scs, scenario{fam: chain, edits: []string{"init"}}, scenario{fam: dirs, edits: []string{"init"}})
 	rebuilds := map[string][]string{"chain": {"a_txt=y", "a_cmd=2", "c_dep=a"}, "dirs": {"d_txt=y", "f_txt=y", "g_binary=True"}}
 	if !r.Quick() {
 		rebuilds = map[string][]string{}
@@ -85,8 +95,13 @@ func main() {
 	}
 	for _, f := range []hist.Family{chain, dirs} {
 		for _, e := range rebuilds[f.Name()] {
-			scs = append(scs, scenario{f, []string{"init", e}})
+			scs = append(scs, scenario{fam: f, edits: []string{"init", e}})
 		}
+	}
+	// with a directory cache: change, build, change back - the crashed build restores every target from the cache
+	scs = append(scs, scenario{fam: dirs, edits: []string{"init", "d_txt=y", "d_txt=x"}, cfg: dirCache})
+	if !r.Quick() {
+		scs = append(scs, scenario{fam: chain, edits: []string{"init", "a_txt=y", "a_txt=x"}, cfg: dirCache})
 	}
 	if r.Replay != "" {
 		var w witness
@@ -95,11 +110,11 @@ func main() {
 		if w.Family == "dirs" {
 			f = dirs
 		}
-		scs = []scenario{{f, append(append([]string{}, w.History...), w.Edit)}}
+		scs = []scenario{{fam: f, edits: append(append([]string{}, w.History...), w.Edit), cfg: w.Cfg}}
 	}
 
 	var skipped []string
-	var evals, crashed, recovered int64
+	var evals, crashed, recovered, notReached int64
 	var opsMu sync.Mutex
 	distinctOps := map[string]bool{}
 	var samples lib.Samples
@@ -120,7 +135,7 @@ func main() {
 			if name != "init" {
 				src = findEdit(sc.fam, src, name).Src
 			}
-			hist.Materialise(sc.fam, src, filepath.Join(pre, "repo"), noCache)
+			hist.Materialise(sc.fam, src, filepath.Join(pre, "repo"), cfgOf(sc))
 			if o := e.RunWith(plz, pre, src, nil); o.Exit != 0 {
 				lib.Fatal("pre-state build failed: %s", o.Output)
 			}
@@ -129,7 +144,7 @@ func main() {
 		if last != "init" {
 			src = findEdit(sc.fam, src, last).Src
 		}
-		hist.Materialise(sc.fam, src, filepath.Join(pre, "repo"), noCache)
+		hist.Materialise(sc.fam, src, filepath.Join(pre, "repo"), cfgOf(sc))
 		clean := e.CleanObs(src, noCache)
 		if clean.Exit != 0 {
 			lib.Fatal("clean build of scenario fails: %s", clean.Output)
@@ -184,81 +199,149 @@ func main() {
 			os.Remove(sout)
 		}
 		totalOps += len(ops)
+		// One job per DISTINCT operation occurrence ("op path", i-th time), not per operation number: the order in which
+		// independent targets are built differs between runs, so "the k-th operation" names a different operation each time,
+		// whereas "the i-th `link CACHE/.. -> REPO/plz-out/gen/p/m2.out`" is the same place in every run that reaches it.
+		// Operations that only show up in later runs (another order) are added until no new one appears.
 		type job struct {
-			k    int
-			plan string
+			key  string // normalised "op path"
+			occ  int
+			plan string // crashop | tearafter
 		}
-		var jobs []job
-		for k := 1; k <= len(ops); k++ {
-			jobs = append(jobs, job{k, "crash"})
-			if !r.Quick() || k%4 == 0 { // torn-write variant: every op in thorough, every 4th in quick
-				jobs = append(jobs, job{k, "tear"})
+		normalise := func(lines []string, runDir string) []string { // "n op path" -> "op path" with the run directory as "@"
+			var out []string
+			for _, l := range lines {
+				f := strings.SplitN(l, " ", 2)
+				if len(f) == 2 {
+					out = append(out, strings.ReplaceAll(f[1], runDir, "@"))
+				}
 			}
+			return out
 		}
-		ch := make(chan job)
-		var wg sync.WaitGroup
-		for w := 0; w < 4; w++ {
-			wg.Add(1)
-			go func(w int) {
-				defer wg.Done()
-				for j := range ch {
-					dir := filepath.Join(e.Root, fmt.Sprintf("c%d-%s", j.k, j.plan))
-					hist.CopyTree(pre, dir)
-					ctf := filepath.Join(e.Root, fmt.Sprintf("c%d-%s.trace", j.k, j.plan))
-					plan := fmt.Sprintf("%s@%d", j.plan, j.k)
-					o := e.RunWith(plzVos, dir, src, []string{"VOS_PLAN=" + plan, "VOS_TRACE=" + ctf})
-					atomic.AddInt64(&evals, 1)
-					wit := witness{Family: sc.fam.Name(), History: sc.edits[:len(sc.edits)-1], Edit: last, Plan: plan, Op: ops[j.k-1]}
-					samples.Add(func() any { return wit })
-					got := readTrace(ctf)
-					// The order in which independent targets are built is not fixed even with -n 1, so the operation the process
-					// died in front of is taken from the crashed run's own trace (its last line).
-					if len(got) > 0 {
-						wit.Op = got[len(got)-1]
-					}
-					if len(got) != j.k && o.Exit != 0 {
-						lib.Fatal("crash run %s wrote %d trace lines", plan, len(got))
-					}
-					opsMu.Lock()
-					distinctOps[strings.Join(strings.Fields(wit.Op)[1:], " ")] = true
-					opsMu.Unlock()
-					if o.Exit == 0 {
-						// this run needed fewer operations than the dry run (different target order): nothing to crash
+		rawTrace := func(p string) []string {
+			b, _ := os.ReadFile(p)
+			var out []string
+			for _, l := range strings.Split(strings.TrimSpace(string(b)), "\n") {
+				if l != "" {
+					out = append(out, l)
+				}
+			}
+			return out
+		}
+		seen := map[string]bool{}
+		var jobs []job
+		addJobs := func(keys []string) int {
+			n := 0
+			count := map[string]int{}
+			for _, k := range keys {
+				count[k]++
+				id := fmt.Sprintf("%s#%d", k, count[k])
+				if seen[id] {
+					continue
+				}
+				seen[id] = true
+				n++
+				jobs = append(jobs, job{k, count[k], "crashop"})
+				switch strings.SplitN(k, " ", 2)[0] {
+				case "create", "openfile", "writefile", "createtemp":
+					jobs = append(jobs, job{k, count[k], "tearafter"}) // died while writing the file this operation created
+				}
+			}
+			return n
+		}
+		{
+			// the dry run's own operations, normalised against ITS directory
+			dry2 := filepath.Join(e.Root, "dry2")
+			hist.CopyTree(pre, dry2)
+			tf2 := filepath.Join(e.Root, "dry2.trace")
+			if o := e.RunWith(plzVos, dry2, src, []string{"VOS_TRACE=" + tf2}); o.Exit != 0 {
+				lib.Fatal("second dry run failed: %s", o.Output)
+			}
+			addJobs(normalise(rawTrace(tf2), dry2))
+			os.RemoveAll(dry2)
+			os.Remove(tf2)
+		}
+		var newMu sync.Mutex
+		for round := 0; round < 4 && len(jobs) > 0; round++ {
+			batch := jobs
+			jobs = nil
+			var later [][]string
+			ch := make(chan job)
+			var wg sync.WaitGroup
+			for w := 0; w < 4; w++ {
+				wg.Add(1)
+				go func(w int) {
+					defer wg.Done()
+					for j := range ch {
+						n := atomic.AddInt64(&evals, 1)
+						dir := filepath.Join(e.Root, fmt.Sprintf("c%d", n))
+						hist.CopyTree(pre, dir)
+						ctf := filepath.Join(e.Root, fmt.Sprintf("c%d.trace", n))
+						plan := fmt.Sprintf("%s@%d:%s", j.plan, j.occ, j.key)
+						o := e.RunWith(plzVos, dir, src, []string{"VOS_PLAN=" + plan, "VOS_NORM=" + dir, "VOS_TRACE=" + ctf})
+						wit := witness{Family: sc.fam.Name(), History: sc.edits[:len(sc.edits)-1], Edit: last, Plan: plan, Op: j.key, Cfg: sc.cfg}
+						samples.Add(func() any { return wit })
+						got := normalise(rawTrace(ctf), dir)
+						newMu.Lock()
+						later = append(later, got)
+						newMu.Unlock()
+						if o.Exit == 0 {
+							// this run never reached that operation occurrence (another order of independent targets)
+							atomic.AddInt64(&notReached, 1)
+							os.RemoveAll(dir)
+							os.Remove(ctf)
+							continue
+						}
+						atomic.AddInt64(&crashed, 1)
+						opsMu.Lock()
+						distinctOps[fmt.Sprintf("%s#%d:%s", j.key, j.occ, j.plan)] = true
+						opsMu.Unlock()
+						// recovery: a normal build with the plain binary
+						rec := e.RunWith(plz, dir, src, nil)
+						if d := hist.DiffOuts(rec, clean); d != "" {
+							opKind := strings.SplitN(j.key, " ", 2)[0]
+							tgt := "other"
+							for _, t := range sc.fam.Targets(src) {
+								if rec.Outs[t.Label] != clean.Outs[t.Label] {
+									tgt = t.Label
+									break
+								}
+							}
+							how := "crash-before-" + opKind
+							if j.plan == "tearafter" {
+								how = "torn-file-after-" + opKind
+							}
+							cache := ""
+							if sc.cfg != "" {
+								cache = ":dir-cache"
+							}
+							cls := fmt.Sprintf("%s:%s%s:%s:wrong=%s", sc.fam.Name(), last, cache, how, tgt)
+							r.Violate(cls, wit, "after plz was killed at "+plan+" the next build differs from a clean build:\n"+d+rec.Output)
+						} else {
+							atomic.AddInt64(&recovered, 1)
+						}
 						os.RemoveAll(dir)
 						os.Remove(ctf)
-						continue
 					}
-					atomic.AddInt64(&crashed, 1)
-					// recovery: a normal build with the plain binary
-					rec := e.RunWith(plz, dir, src, nil)
-					if d := hist.DiffOuts(rec, clean); d != "" {
-						opKind := strings.Fields(wit.Op)[1]
-						tgt := "other"
-						for _, t := range sc.fam.Targets(src) {
-							if rec.Outs[t.Label] != clean.Outs[t.Label] {
-								tgt = t.Label
-								break
-							}
-						}
-						cls := fmt.Sprintf("%s:%s:%s-before-%s:wrong=%s", sc.fam.Name(), last, j.plan, opKind, tgt)
-						r.Violate(cls, wit, "after plz was killed at "+plan+" ("+wit.Op+") the next build differs from a clean build:\n"+d+rec.Output)
-					} else {
-						atomic.AddInt64(&recovered, 1)
-					}
-					os.RemoveAll(dir)
-					os.Remove(ctf)
-				}
-			}(w)
-		}
-		for _, j := range jobs {
-			if r.OutOfTime() {
-				exhaustive = false
-				break
+				}(w)
 			}
-			ch <- j
+			for _, j := range batch {
+				if r.OutOfTime() {
+					exhaustive = false
+					break
+				}
+				ch <- j
+			}
+			close(ch)
+			wg.Wait()
+			// operations seen only in these runs become jobs of the next round
+			for _, tr := range later {
+				addJobs(tr)
+			}
+			if round == 3 && len(jobs) > 0 {
+				exhaustive = false
+			}
 		}
-		close(ch)
-		wg.Wait()
 		os.RemoveAll(e.Root)
 	}
 
@@ -268,16 +351,16 @@ func main() {
 	r.Assume = []string{
 		"crash model = process death (SIGKILL): every prefix of the sequence of mutating file-system operations is a reachable disk state, the page cache survives; additionally the file being written at the moment of death may be half written (tear). No power-loss reordering.",
 		"the seam covers os.* and xattr.* calls of src/fs, src/cache, src/build, src/core, src/test; the seamed binary's outputs are asserted equal to the plain binary's on every scenario (dry run), and on every scenario one run under strace asserts that every successful mutating system call of the plz process below the scenario directory (plz-out/log excepted: log files are not build state) is explained by a numbered seam operation",
-		"-n 1; the order in which independent targets are built still varies between runs, so crash point k is the k-th operation of that run (taken from its own trace); k ranges over the length of a dry run, and the distinct operations actually crashed at are counted in the evidence",
+		"-n 1; the order in which independent targets are built still varies between runs, so crash points are named by operation (i-th occurrence of `op path`, run directory normalised), not by number: every distinct operation occurrence of a dry run - and every further one seen in any crash run, to a fixed point - gets its own run that is killed immediately before it (and, for file-creating operations, one killed at the next operation with the created file cut in half); a plan whose operation is not reached in its run (another order) is counted",
 		"build commands themselves (bash) are not crashed mid-way: their writes go to the target's temporary directory, which every build wipes before use",
 	}
 	r.Finish(lib.Coverage{
 		Evaluations:        int(evals) + wfEvals,
 		DistinctNontrivial: int(crashed) + wfEvals,
-		Rule:               "for each scenario (first build of two repository families; rebuild after single edits) every mutating file-system operation k of the build: kill before k (and torn-write variant), then recover; plus every crash point of fs.WriteFile over old/new contents; non-trivial = the process really died at the crash point",
+		Rule:               "for each scenario (first build of two repository families; rebuild after single edits; restore of every target from a directory cache) every distinct mutating file-system operation occurrence of the build: kill immediately before it (and, after file-creating operations, with the file half written), then recover with a normal build and compare with a clean build; plus every crash point of fs.WriteFile over old/new contents; non-trivial = the process really died at the crash point",
 		Samples:            samples.List(),
 		Exhaustive:         exhaustive,
-		Extra:              map[string]any{"scenarios": len(scs), "scenarios_skipped_because_the_uninterrupted_incremental_build_already_differs_from_clean": skipped, "fs_operations_in_dry_runs": totalOps, "recovered_equal_to_clean": recovered, "distinct_operations_crashed_at": len(distinctOps), "seam_conformance_syscalls_checked_against_strace": confSyscalls, "seam_conformance_seam_operations": confOps, "writefile_crash_points": wfEvals, "writefile_ops": wfOps},
+		Extra:              map[string]any{"scenarios": len(scs), "scenarios_skipped_because_the_uninterrupted_incremental_build_already_differs_from_clean": skipped, "fs_operations_in_dry_runs": totalOps, "recovered_equal_to_clean": recovered, "plans_whose_operation_was_not_reached_in_that_run": notReached, "distinct_operations_crashed_at": len(distinctOps), "seam_conformance_syscalls_checked_against_strace": confSyscalls, "seam_conformance_seam_operations": confOps, "writefile_crash_points": wfEvals, "writefile_ops": wfOps},
 	})
 }
 
